@@ -106,6 +106,50 @@ Proof.
     cbn [rs_kind rs_status rs_cookies]; (split; [reflexivity|split; [try discriminate; auto|apply in_or_app; right; left; reflexivity]]).
 Qed.
 
+(* ------------------------------------------------------------------ failure causes *)
+
+(* the fault the handler model sees does not depend on the cause *)
+Lemma fault_of_cause_status st k : fault_of_cause st k = CFErr st.
+Proof. reflexivity. Qed.
+
+(* counting every cause is the counter machine of the code: bounded by three, whatever the causes *)
+Lemma counter_run_sel_all counted evs : (forall k, counted k = true) ->
+  forall c, counter_run_sel counted c evs = counter_run c (map (fun e => EvFail (fst e)) evs).
+Proof.
+  intros Hall. induction evs as [|[st k] r IH]; intros c; cbn [counter_run_sel counter_run map fst]; [reflexivity|].
+  unfold counter_step_sel. destruct (counter_step c (EvFail st)) as [c' o]. rewrite Hall, IH. reflexivity.
+Qed.
+
+Lemma retry_runs_bounded_any_cause counted evs : (forall k, counted k = true) ->
+  Z.of_nat (length evs) < max_int -> (max_redirect_run (counter_run_sel counted None evs) <= 3)%nat.
+Proof.
+  intros Hall Hl. rewrite (counter_run_sel_all counted evs Hall). apply retry_runs_bounded; [now left|].
+  rewrite map_length. cbn. exact Hl.
+Qed.
+
+(* ... and it has to be: if ONE cause is exempted from counting, a request that keeps failing for that cause is
+   redirected for ever - the counter the browser returns never moves *)
+Lemma uncounted_cause_loops counted k st n : counted k = false -> st <> 429 ->
+  counter_run_sel counted None (repeat (st, k) n) = repeat ObsRedirect n.
+Proof.
+  intros Hk Hst. induction n as [|n IH]; cbn [repeat counter_run_sel]; [reflexivity|].
+  unfold counter_step_sel. cbn [counter_step]. rewrite Hk. rewrite (proj2 (Z.eqb_neq st 429) Hst). cbn [negb andb].
+  rewrite IH. reflexivity.
+Qed.
+
+Lemma max_run_go_redirects n : forall cur best, max_run_go cur best (repeat ObsRedirect n) = Nat.max (cur + n) best.
+Proof.
+  induction n as [|n IH]; intros cur best; cbn [repeat max_run_go]; [now rewrite Nat.add_0_r|].
+  rewrite IH. f_equal. lia.
+Qed.
+
+Lemma uncounted_cause_unbounded counted k st n : counted k = false -> st <> 429 ->
+  max_redirect_run (counter_run_sel counted None (repeat (st, k) n)) = n.
+Proof.
+  intros Hk Hst. rewrite (uncounted_cause_loops counted k st n Hk Hst). unfold max_redirect_run.
+  rewrite max_run_go_redirects. lia.
+Qed.
+
 (* ------------------------------------------------------------------ strconv round trip *)
 
 Lemma digits_val_app a b acc : digits_val (a ++ b) acc = match digits_val a acc with Some v => digits_val b v | None => None end.
